@@ -90,6 +90,7 @@ PATTERNS = [
     (r"liquidation_receiver\s*=\s*Pubkey::default\s*\(\)", lambda m: "clear_receiver"),
     (r"MarginfiError::WorseHealthPostLiquidation\b", lambda m: "worse_health_check"),
     (r"MarginfiError::LiquidationPremiumTooHigh\b", lambda m: "premium_check"),
+    (r"MarginfiError::OverliquidationAttempt\b", lambda m: "over_liq_check"),
     (r"MarginfiError::ZeroAssetPrice\b", lambda m: "zero_asset_price_check"),
     (r"MarginfiError::ZeroLiabilityPrice\b", lambda m: "zero_liab_price_check"),
     (r"\bstart_receivership\s*\(", lambda m: "call_start_receivership"),
@@ -160,7 +161,8 @@ SIMPLE = {"asset_tags": "assetTags", "capacity": "capacity", "find_or_create": "
           "copy_flags": "copyFlags", "clear_receiver": "clearReceiver", "worse_health_check": "worseHealthCheck",
           "premium_check": "premiumCheck", "call_start_receivership": "callStartReceivership",
           "call_end_receivership": "callEndReceivership", "call_can_start": "callCanStart",
-          "zero_asset_price_check": "zeroAssetPriceCheck", "zero_liab_price_check": "zeroLiabPriceCheck"}
+          "zero_asset_price_check": "zeroAssetPriceCheck", "zero_liab_price_check": "zeroLiabPriceCheck",
+          "over_liq_check": "overLiqCheck"}
 
 PRELUDE = """-- GENERATED by translator/skeleton.py from programs/marginfi/src/instructions/**. Do not edit.
 namespace Mfi.Gen.Skel
@@ -182,7 +184,7 @@ inductive Ev
   | feeAtaCheck | emisDestCheck | transferChecked
   | setFlag (f : AFlag) | unsetFlag (f : AFlag) | returnOk | validateIxs | notCpi | notCpiSysvar | copyFlags
   | clearReceiver | worseHealthCheck | premiumCheck | callStartReceivership | callEndReceivership | callCanStart
-  | zeroAssetPriceCheck | zeroLiabPriceCheck
+  | zeroAssetPriceCheck | zeroLiabPriceCheck | overLiqCheck
   deriving DecidableEq, Repr
 """
 
